@@ -6,12 +6,15 @@ from common import *
 from qcommon import catalog_coq
 
 PROP = "C15"
+BUILTIN_GO_TYPES = ["string", "int", "int16", "int32", "int64", "float32", "float64", "bool", "byte", "error", "interface{}", "uint", "uint8", "uint16", "uint32", "uint64", "rune", "any", ""]
 HEADER = ("From Verif Require Import Model.GoTypes Judge.J15.\n"
           "Open Scope string_scope. Open Scope list_scope.\n")
 
 SCHEMA = """CREATE SCHEMA s1;
 CREATE TABLE accounts (id uuid PRIMARY KEY, name text NOT NULL, note text, tags text[], age int);
-CREATE TABLE s1.accounts (id uuid PRIMARY KEY, name text NOT NULL, note text);
+CREATE TYPE s1.mood AS ENUM ('ok', 'sad');
+CREATE TYPE mood AS ENUM ('fine');
+CREATE TABLE s1.accounts (id uuid PRIMARY KEY, name text NOT NULL, note text, mood s1.mood, pmood mood NOT NULL);
 CREATE TABLE orders (id uuid PRIMARY KEY, account_id uuid NOT NULL, name text, total int NOT NULL);
 """
 QUERIES = """-- name: GetAccount :one
@@ -82,7 +85,7 @@ def gen_config(rng):
             ovs.append(o)
     rename = {}
     if rng.random() < 0.4:
-        rename = {rng.choice(["note", "name", "account_id", "total"]): rng.choice(["Memo", "Label", "Owner"])}
+        rename = {rng.choice(["note", "name", "account_id", "total", "s1_mood", "mood", "s1"]): rng.choice(["Memo", "Label", "Owner"])}
     per_package = rng.random() < 0.3
     return ovs, rename, per_package
 
@@ -179,6 +182,13 @@ def run(tier, seed):
         rep.violation("the fixed C15 input no longer generates: " + str(base.get("stderr")) + str(comp.get("errs")), {}, no_input=True)
         return rep.finish("proof", ob, dis, checker_cmd(PROP), rule="-")
     base_fields = {f[0]: f for f in fields_of(base["summary"], comp, {})}
+    # a rename may hit a generated enum type (mood, s1_mood): "without overrides" then means "with the same renames"
+    renames = sorted(set(json.dumps(rn, sort_keys=True) for _, rn, _ in cfgs if rn))
+    rres = run_harness([{"op": "generate", "summary": True, "files": files(config_text([], json.loads(r_), False))} for r_ in renames])
+    base_by_rename = {"{}": base_fields}
+    for r_, g_ in zip(renames, rres):
+        if g_.get("ok"):
+            base_by_rename[r_] = {f[0]: f for f in fields_of(g_["summary"], comp, json.loads(r_))}
     cat = catalog_coq(comp["catalog"])
     exprs, keys = [], []
     for i, (ovs, rename, pp) in enumerate(cfgs):
@@ -204,17 +214,31 @@ def run(tier, seed):
                 rep.violation("a model struct is missing or has the wrong number of fields under overrides (%s)" % f[0], replay)
                 continue
             where, tbl, col, dt, nn, arr, gty, gname, shown = f
-            b = base_fields.get(where)
+            b = base_by_rename.get(json.dumps(rename, sort_keys=True), {}).get(where)
             if b is None:
                 continue
             rep.count("field:" + where.split(":")[0])
             tcoq = "None" if tbl is None else "(Some (%s, %s, %s))" % tuple(coqstr(x) for x in tbl)
-            exprs.append("judge_field %s PostgreSQL %s %s %s %s %s %s %s %s" % (govs, cat, tcoq, coqstr(col), coqstr(dt), coqbool(nn), coqbool(arr), coqstr(gty), coqstr(b[6])))
+            exprs.append("judge_field %s %s PostgreSQL %s %s %s %s %s %s %s %s" % (coqlist(["(%s, %s)" % (coqstr(k_), coqstr(v_)) for k_, v_ in sorted(rename.items())]), govs, cat, tcoq, coqstr(col), coqstr(dt), coqbool(nn), coqbool(arr), coqstr(gty), coqstr(b[6])))
             keys.append((replay, where, gty, b[6]))
             # renames: the identifier derived from a renamed database name
             if shown in rename and where.startswith(("model", "result")) and gname and not gname.startswith(rename[shown]):
                 if True:
                     rep.violation("rename %s is not applied to field %s (%s)" % (rename, gname, where), replay)
+        # every unqualified type a struct field or a method signature mentions is declared in the package (a rename must
+        # reach the declaration of a generated type and all its uses alike)
+        declared = set(BUILTIN_GO_TYPES)
+        for fname, fs in g["summary"].items():
+            declared |= set(x["name"] for x in fs.get("structs", [])) | set(x["name"] for x in fs.get("named", [])) | set(x["name"] for x in fs.get("interfaces", []))
+        for fname, fs in g["summary"].items():
+            mentioned = [f_["type"] for st in fs.get("structs", []) for f_ in st["fields"]]
+            mentioned += [t_["type"] for m_ in fs.get("methods", []) for t_ in m_["params"] + m_["results"]]
+            for ty in mentioned:
+                base = ty.lstrip("*[]").replace("...", "")
+                if "." in base or "{" in base or " " in base or base in declared:
+                    continue
+                rep.violation("%s mentions type %s, which the package does not declare (rename %s)" % (fname, base, rename), replay)
+                break
         # imports: every file imports an override's path iff it uses the type
         for fname, fs in g["summary"].items():
             quals = set(fs.get("qualifiers", []))
